@@ -9,7 +9,7 @@ type timerObj struct {
 	fn    value
 }
 
-func (e *Engine) setupModels() {}
+func (e *Engine) setupModels() { e.setupWS() }
 
 // quiesce lets every other thread run until none can move; returns the number of
 // non-daemon threads that are then still blocked.
@@ -35,4 +35,102 @@ func (e *Engine) quiesce() int {
 		}
 	}
 	return n
+}
+
+// ---------------------------------------------------------------------------
+// M-ws: a gorilla websocket connection is one end of a pair of FIFO message
+// queues with close flags. ReadMessage blocks until a message or close.
+
+type wsEnd struct {
+	peer   *wsEnd
+	inbox  []tuple // (type, payload) written by the peer
+	closed bool    // this end was closed locally
+	failed bool    // a read already failed: all later reads fail
+	dialed string
+	sub    string
+}
+
+const wsPkg = "github.com/gorilla/websocket"
+
+func (e *Engine) wsOf(v value) *wsEnd {
+	p, _ := v.(*value)
+	if p == nil {
+		e.rtPanic("nil pointer dereference (websocket.Conn)")
+	}
+	w, ok := e.ws[p].(*wsEnd)
+	if !ok {
+		// an unlinked connection: behaves as a connection whose peer never sends and never closes
+		w = &wsEnd{}
+		w.peer = &wsEnd{peer: w}
+		e.ws[p] = w
+	}
+	return w
+}
+
+func (e *Engine) newErr(msg string) value {
+	return e.callFn(e.fn("errors", "New"), []value{constStrV(msg)})
+}
+
+func (e *Engine) setupWS() {
+	x := e.ext
+	x[rtPkg+".Link"] = func(e *Engine, fr *frame, a []value) value {
+		pa := a[0].(iface).v.(*value)
+		pb := a[1].(iface).v.(*value)
+		wa, wb := &wsEnd{}, &wsEnd{}
+		wa.peer, wb.peer = wb, wa
+		e.ws[pa], e.ws[pb] = wa, wb
+		return nil
+	}
+	// CloseWrite: the peer of a will see end-of-stream after the queued messages.
+	x[rtPkg+".CloseWrite"] = func(e *Engine, fr *frame, a []value) value {
+		w := e.wsOf(a[0].(iface).v)
+		e.hbRelease(w)
+		w.closed = true
+		return nil
+	}
+	x["(*"+wsPkg+".Conn).WriteMessage"] = func(e *Engine, fr *frame, a []value) value {
+		w := e.wsOf(a[0])
+		e.yield()
+		if w.closed || w.peer.closed {
+			return e.newErr("websocket: close sent")
+		}
+		e.hbRelease(w.peer)
+		w.peer.inbox = append(w.peer.inbox, tuple{a[1], e.snapshot(a[2].(*bytesV))})
+		return e.errNil()
+	}
+	x["(*"+wsPkg+".Conn).ReadMessage"] = func(e *Engine, fr *frame, a []value) value {
+		w := e.wsOf(a[0])
+		e.yield()
+		nilBytes := &bytesV{n: BV(64, 0), isNil: true, arr: &byteArr{}}
+		if w.failed || w.closed {
+			w.failed = true
+			return tuple{BV(64, ^uint64(0)), nilBytes, e.newErr("websocket: use of closed connection")}
+		}
+		if len(w.inbox) == 0 && !w.peer.closed {
+			e.block(func() bool { return len(w.inbox) > 0 || w.peer.closed || w.closed }, "websocket ReadMessage")
+		}
+		e.hbAcquire(w)
+		if len(w.inbox) > 0 {
+			m := w.inbox[0]
+			w.inbox = w.inbox[1:]
+			return tuple{m[0], m[1], e.errNil()}
+		}
+		w.failed = true
+		return tuple{BV(64, ^uint64(0)), nilBytes, e.newErr("websocket: close 1006 (abnormal closure): unexpected EOF")}
+	}
+	x["(*"+wsPkg+".Conn).Close"] = func(e *Engine, fr *frame, a []value) value {
+		w := e.wsOf(a[0])
+		e.yield()
+		e.hbRelease(w.peer)
+		e.hbRelease(w)
+		w.closed = true
+		return e.errNil()
+	}
+	x["(*"+wsPkg+".Conn).SetReadDeadline"] = func(e *Engine, fr *frame, a []value) value { return e.errNil() }
+	x["(*"+wsPkg+".Conn).SetWriteDeadline"] = func(e *Engine, fr *frame, a []value) value { return e.errNil() }
+	x["(*"+wsPkg+".Conn).Subprotocol"] = func(e *Engine, fr *frame, a []value) value { return constStrV(e.wsOf(a[0]).sub) }
+	// rt.WSClosed(conn) reports whether the connection was closed locally
+	x[rtPkg+".WSClosed"] = func(e *Engine, fr *frame, a []value) value {
+		return BoolT(e.wsOf(a[0].(iface).v).closed)
+	}
 }
